@@ -158,6 +158,46 @@ def tokenizeBy (kind mode : String) (b : Bytes) (seg : List Nat) : Option (List 
       | "chars" => some (tokenizeCharsB b)
       | _ => none
 
+/-! ### cross-check of the soft-float model (Model/F32.lean) against the hardware `f32`
+The model computes every `f32` as a bit pattern with exact arithmetic; here the same values are also
+computed with Lean's native `Float32` (the machine's IEEE-754 operations).  Any disagreement makes the
+response visibly different (`SOFTFLOAT-MISMATCH`), so every correspondence run tests the soft floats. -/
+
+/-- bits of `if b == 0 { 1.0 } else { 2.0 * a as f32 / b as f32 }` computed by the hardware -/
+def nativeRatioBits (a b : Nat) : Nat :=
+  (if b = 0 then (1.0 : Float32) else 2.0 * a.toFloat32 / b.toFloat32).toBits.toNat
+
+def ratioAgree (a b : Nat) : Bool := ratioF a b == nativeRatioBits a b
+
+/-- the soft ratio bits, marked when the hardware disagrees -/
+def showRatioBits (a b : Nat) : String :=
+  if ratioAgree a b then toString (ratioF a b)
+  else s!"{ratioF a b} SOFTFLOAT-MISMATCH(native={nativeRatioBits a b})"
+
+/-- do the hardware comparisons `x < c`, `x >= c` agree with the soft ones on these two bit patterns? -/
+def cmpAgree (x c : Nat) : Bool :=
+  let fx := Float32.ofBits x.toUInt32
+  let fc := Float32.ofBits c.toUInt32
+  (decide (fx < fc) == F32.lt x c) && (decide (fx ≥ fc) == F32.ge x c)
+
+/-- every `f32` value and comparison that `getCloseMatches` evaluates, re-done on the hardware -/
+def closeNativeAgree (tok : Bytes → List Bytes) (word : Bytes) (cands : List Bytes) (cutoff : Nat) : Bool :=
+  cands.all fun p =>
+    let s1 := tok word
+    let s2 := tok p
+    let ua := min s1.length s2.length
+    let ub := s1.length + s2.length
+    let wc := countsOf s1
+    let qa := quickLoop wc [] s2
+    let qb := wc.length + s2.length
+    ratioAgree ua ub && ratioAgree qa qb && cmpAgree (ratioF ua ub) cutoff && cmpAgree (ratioF qa qb) cutoff &&
+    (if F32.lt (ratioF ua ub) cutoff || F32.lt (ratioF qa qb) cutoff then true
+     else match textDiffOps .myers false s1.toArray s2.toArray {} with
+       | .ok (ops, _) =>
+         let (a, b) := ratioPair ops s1.length s2.length
+         ratioAgree (a / 2) b && cmpAgree (ratioF (a / 2) b) cutoff
+       | .error _ => true)
+
 def algName : Alg → String
   | .myers => "myers" | .patience => "patience" | .lcs => "lcs"
 
@@ -169,7 +209,7 @@ def handleText (kind mode : String) (alg : Alg) (dl : Option Nat) (nlt : Option 
     (match textDiffOps alg false to tn { clock := dl } with
      | .ok (ops, _) =>
        let (x, y) := ratioPair ops to.size tn.size
-       s!"ok N={to.size},{tn.size} O={showOps ops} T={if newlineTerminated nlt (kind == "lines") then 1 else 0} A={algName alg} F={(ratioF (x / 2) y).toBits.toNat}"
+       s!"ok N={to.size},{tn.size} O={showOps ops} T={if newlineTerminated nlt (kind == "lines") then 1 else 0} A={algName alg} F={showRatioBits (x / 2) y}"
      | .error .fuel => "fuel"
      | .error _ => "panic")
   | _, _ => "contract"
@@ -302,8 +342,9 @@ def handle (line : String) : String :=
      | ["close", n, cutoff] =>
        (match n.toNat?, parseHexU32 cutoff, parseHex body, (if seg == "" then some [] else (seg.splitOn ",").mapM parseHex) with
         | some n, some bits, some word, some cands =>
-          (match getCloseMatches (charsOf "str") word cands n (Float32.ofBits bits) with
-           | .ok r => "ok M=" ++ ",".intercalate (r.map showHex)
+          (match getCloseMatches (charsOf "str") word cands n bits.toNat with
+           | .ok r => "ok M=" ++ ",".intercalate (r.map showHex) ++
+               (if closeNativeAgree (charsOf "str") word cands bits.toNat then "" else " SOFTFLOAT-MISMATCH")
            | .error _ => "panic")
         | _, _, _, _ => "bad-op")
      | ["tok", kind, mode] =>
@@ -339,7 +380,7 @@ def handle (line : String) : String :=
        (match a.toNat?, b.toNat?, parseOps body with
         | some a, some b, some ops =>
           let (x, y) := ratioPair ops a b
-          s!"ok R={x}/{y} F={(ratioF (x / 2) y).toBits.toNat}"
+          s!"ok R={x}/{y} F={showRatioBits (x / 2) y}"
         | _, _, _ => "bad-op")
      | _ => "bad-op")
   | _ => "bad-op"
